@@ -1135,6 +1135,15 @@ class CallMixin:
             # sequential element-wise map: one call of f per element, results kept in input order
             f = P[0]
             args = None
+            # over sequences written out in the source (a tuple of (operator, helper) pairs, ...): the calls themselves
+            cols_ = [self.known_items(self.res(p_, st), 16) if p_.op != "Const" else None for p_ in P[1:]]
+            if all(c_ is not None for c_ in cols_) and f.op in ("Func", "Closure", "BoundMethod", "Ext"):
+                rows_ = list(zip(*cols_))
+                if q.endswith("starmap"):
+                    rows_ = [self.known_items(r_[0], 16) if len(r_) == 1 else None for r_ in rows_]
+                if rows_ and all(r_ is not None for r_ in rows_):
+                    return self.mk("List", tuple(self.snapshot(self.call(f, list(r_), {}, st, fr, site), st)
+                                                 for r_ in rows_), None, site)
             if q.endswith("starmap"):
                 if len(P) == 2:
                     ev = self.iter_elem(P[1], site)
@@ -1300,6 +1309,8 @@ class CallMixin:
             OPU = {"neg": "USub", "pos": "UAdd", "invert": "Invert", "inv": "Invert", "not_": "Not"}
             name_ = q.split(".", 1)[1].strip("_") if q.split(".", 1)[1] not in ("and_", "or_", "is_", "not_") \
                 else q.split(".", 1)[1]
+            if name_ == "getitem" and len(P) == 2:
+                return self.subscript(pos[0], P[1], st, fr, site)
             if name_ in OPB and len(P) == 2:
                 return self.binop(OPB[name_], P[0], P[1], site, extra)
             if name_ in OPC and OPC[name_] and len(P) == 2:
